@@ -74,6 +74,9 @@ def run(ctx):
             cases.append(t.gen_case(rng, version=v, profile="none", keylen=kl, mask=None, algorithm="0"))
         for m in (4966, 4975, 4990, 20000):
             cases.append(t.gen_case(rng, version=v, profile="none", keylen=16, mask=m))
+        for _ in range(ctx.n(4, 20)):
+            cases.append(t.gen_case(rng, version=v, profile="ws_aligned", keylen=rng.choice([0, 8, 16])))
+    cases += t.selfref_cases(rng)
     viol, diffs, dist, samples = [], [], {}, []
     seen = set()
     rows = []
@@ -110,6 +113,44 @@ def run(ctx):
             except Exception as e:  # noqa: BLE001
                 viol.append({"what": "str(header) does not re-load", "input": inp, "expected": "load ok", "observed": repr(e)[:200]})
         rows.append((st, kb))
+    # every MutableMapping entry point x hostile ids / data: whatever the API lets into a header must still serialise
+    # to a well-framed block that re-loads (on the pinned tree all of these are rejected with HeaderError)
+    hostile = [("KSN", "1"), ("T", "12"), ("K_", "123"), ("", "x"), ("ab", "\x7f"), ("a b", ""), ("KS", "\x1f"),
+               ("K\u0660", "1"), ("\uff21\uff22", "x"), ("T1", "caf\xe9"), ("T2", "tab\t"), ("ks", " ok "), ("Z9", "~}|")]
+    for v in "ABCD":
+        for style in range(5):
+            for bid, data in hostile:
+                c = t.gen_case(rng, version=v, profile="none", keylen=16, mask=None, algorithm="T")
+                h = t.impl_header(c)
+                core.set_block(h.blocks, "T0", "first")
+                try:
+                    core.set_block(h.blocks, bid, data, style)
+                    ins = "accepted"
+                except Exception as e:  # noqa: BLE001
+                    ins = core.bucket(e)
+                k = "api_style%d:%s" % (style, ins)
+                dist[k] = dist.get(k, 0) + 1
+                if ins not in ("accepted", "PsecError"):
+                    viol.append({"what": "block insertion raised a foreign exception", "input": {"id": bid, "data": data, "style": style},
+                                 "expected": "HeaderError or accepted", "observed": ins})
+                try:
+                    kbt = tr31.wrap(c["kbpk"], h, c["key"])
+                except Exception:  # noqa: BLE001
+                    continue
+                c2 = dict(c)
+                c2["blocks"] = list(dict(h.blocks).items())
+                errs = framing_errors(c2, kbt)
+                try:
+                    h3 = tr31.Header()
+                    n3 = h3.load(str(h))
+                    if n3 != len(str(h)) or core.show_header(h3) != core.show_header(h):
+                        errs.append("str(header) does not re-load to an equal header")
+                except Exception as e:  # noqa: BLE001
+                    errs.append("str(header) does not re-load: " + repr(e)[:80])
+                if errs:
+                    viol.append({"what": "a header built through the mapping API serialises to an ill-framed block: " + "; ".join(errs),
+                                 "input": {"version": v, "id": bid, "data": data, "entry_point_style": style, "insertion": ins},
+                                 "expected": "framing rules", "observed": kbt[:100]})
     # model: the same str / wrap (with recovered tape) must produce the same text
     ops_cases = [(c["kbpk"], t.setup_ops(c) + [("S",), ("W", c["key"], c["mask"])]) for c in cases]
     fake = []
